@@ -36,7 +36,7 @@ func checkC18(c *Ctx) {
 		"K5 writer: slot layout of the IPv4 and UDP headers against RFC 791 / RFC 768 (offset, width, value of every header store; version/IHL from constants; total length 20+8+len; protocol 17; UDP length 8+len; ports/addresses from the arguments; payload appended verbatim); getters and setters use the same offsets",
 		"K6 ordering: each checksum field is written after all other fields of its header, from the complement of the value computed over that header",
 		"K7 byte weights and fold of the RFC 1071 summation routine; K8 partial sums are combined only through that routine: no 16-bit addition has a checksum-derived operand outside it")
-	r.NotDecided = append(r.NotDecided, "that the checksum values verify under RFC 1071 (carry folding is arithmetic on runtime values)", "arrival-order claims over frame sequences", "the deprecated client4.MakeRawUDPPacket")
+	r.NotDecided = append(r.NotDecided, "that the checksum values verify under RFC 1071 (carry folding is arithmetic on runtime values)", "arrival-order claims over frame sequences")
 	fn := rawReadFrom(c)
 	if fn == nil {
 		r.Undecided("C18-anchor", "BroadcastRawUDPConn.ReadFrom", "-", "not found")
@@ -57,6 +57,8 @@ func checkC18(c *Ctx) {
 	}
 	byteOrderRule(c, "C18-K10", []string{"dhcpv4/nclient4"}, 1)
 	platformWidthRule(c, "C18-K11", []string{"dhcpv4/nclient4"})
+	c18Client4Frame(c)
+	c18FoldComplete(c, []string{nc4, cl4})
 	c18Reader(c, fn, "C18")
 	c18Writer(c)
 	c18ChecksumShape(c)
@@ -919,7 +921,7 @@ func c18Writer(c *Ctx) {
 // c18NoStaleHeader: K9 — a header slice handed out by the Lexer (WriteN) stays valid only while the Lexer's
 // buffer is not reallocated. Either the buffer's capacity equals the sum of everything written to it (no
 // write can reallocate), or every use of a header slice precedes every later growing write to the same Lexer.
-func c18NoStaleHeader(c *Ctx, f *ssa.Function, calls []*ssa.Call) {
+func c18NoStaleHeader(c *Ctx, f *ssa.Function, calls []*ssa.Call, helperArg map[*ssa.Parameter]ssa.Value) {
 	r, sx := c.R, c.Sx()
 	key := func(s string) string { return "nclient4.udp4pkt: " + s }
 	isLex := func(cl *ssa.Call, m string) bool {
@@ -929,6 +931,10 @@ func c18NoStaleHeader(c *Ctx, f *ssa.Function, calls []*ssa.Call) {
 	var flat func(v ssa.Value, k *int64, terms *[]string)
 	flat = func(v ssa.Value, k *int64, terms *[]string) {
 		v = stripConv(v)
+		if p, ok := v.(*ssa.Parameter); ok && helperArg[p] != nil {
+			flat(helperArg[p], k, terms)
+			return
+		}
 		if c0, ok := intConst(v); ok {
 			*k += c0
 			return
@@ -963,6 +969,9 @@ func c18NoStaleHeader(c *Ctx, f *ssa.Function, calls []*ssa.Call) {
 			headers = append(headers, cl)
 		case isLex(cl, "WriteBytes"):
 			if ln, ok := cl.Call.Args[1].(ssa.Value); ok {
+				if p, ok := ln.(*ssa.Parameter); ok && helperArg[p] != nil {
+					ln = helperArg[p]
+				}
 				sumT = append(sumT, "len("+sx.Of(ln).String()+")")
 			}
 			growth = append(growth, i)
@@ -1113,6 +1122,35 @@ func c18Udp4pkt(c *Ctx, f *ssa.Function) {
 		})
 	}
 	collect(f, 0)
+	// parameters of the spliced helpers, written in the caller's terms
+	helperSubst := map[string]string{}
+	helperArg := map[*ssa.Parameter]ssa.Value{}
+	allInstrs(f, func(in ssa.Instruction) {
+		if cl, ok := in.(*ssa.Call); ok && cl.Call.StaticCallee() != nil && helperSet[cl.Call.StaticCallee()] {
+			g := cl.Call.StaticCallee()
+			for i, p := range g.Params {
+				if i < len(cl.Call.Args) {
+					helperSubst[sx.Of(p).String()] = sx.Of(cl.Call.Args[i]).String()
+					helperArg[p] = cl.Call.Args[i]
+				}
+			}
+		}
+	})
+	inCaller := func(s string) string {
+		for from, to := range helperSubst {
+			s = strings.ReplaceAll(s, from, to)
+		}
+		return s
+	}
+	// hdrOf: a header value in the caller's terms; a header returned by a spliced helper is the value the helper returns
+	hdrOf := func(v ssa.Value) string {
+		if cl, ok := stripConv(v).(*ssa.Call); ok && cl.Call.StaticCallee() != nil && helperSet[cl.Call.StaticCallee()] {
+			if rets := returnsOf(cl.Call.StaticCallee()); len(rets) == 1 && len(rets[0].Results) == 1 {
+				return inCaller(sx.Of(rets[0].Results[0]).String())
+			}
+		}
+		return inCaller(sx.Of(v).String())
+	}
 	idx := func(pred func(*ssa.Call) bool) int {
 		for i, cl := range calls {
 			if pred(cl) {
@@ -1127,7 +1165,7 @@ func c18Udp4pkt(c *Ctx, f *ssa.Function) {
 	udpEncI := idx(func(cl *ssa.Call) bool { return name(cl) == "(dhcpv4/nclient4.udp).encode" })
 	udpCkI := idx(func(cl *ssa.Call) bool { return name(cl) == "(dhcpv4/nclient4.udp).setChecksum" })
 	wbI := idx(func(cl *ssa.Call) bool { return strings.HasSuffix(name(cl), "uio.Lexer).WriteBytes") })
-	c18NoStaleHeader(c, f, calls)
+	c18NoStaleHeader(c, f, calls, helperArg)
 	if ipEncI < 0 || ipCkI < 0 || udpEncI < 0 || udpCkI < 0 || wbI < 0 {
 		r.Violation("C18-K6", key("steps present"), c.P.pos(f.Pos()), fmt.Sprintf("encode/setChecksum/WriteBytes calls: %d %d %d %d %d", ipEncI, ipCkI, udpEncI, udpCkI, wbI))
 		return
@@ -1140,10 +1178,10 @@ func c18Udp4pkt(c *Ctx, f *ssa.Function) {
 	okU := strings.HasPrefix(s2, "un[^](call[(dhcpv4/nclient4.udp).calculateChecksum](") && strings.Contains(s2, "call[dhcpv4/nclient4.checksum]("+packet+",call[dhcpv4/nclient4.pseudoHeaderchecksum](") && strings.Contains(s2, "udp).length](")
 	r.Check(okU, "C18-K6", key("UDP checksum is the complement of the sum over pseudo-header, header and payload"), c.P.ipos(calls[udpCkI]), "symx", "UDP checksum value is "+s2)
 	// both setChecksum receivers are the headers just written
-	r.Check(sx.Of(calls[ipCkI].Call.Args[0]).String() == sx.Of(calls[ipEncI].Call.Args[0]).String() && strings.Contains(sx.Of(calls[ipEncI].Call.Args[0]).String(), "WriteN]") && strings.HasSuffix(sx.Of(calls[ipEncI].Call.Args[0]).String(), ",const(20))"),
+	r.Check(hdrOf(calls[ipCkI].Call.Args[0]) == hdrOf(calls[ipEncI].Call.Args[0]) && strings.Contains(sx.Of(calls[ipEncI].Call.Args[0]).String(), "WriteN]") && strings.HasSuffix(hdrOf(calls[ipEncI].Call.Args[0]), ",const(20))"),
 		"C18-K5", key("IP header occupies the first 20 bytes"), c.P.ipos(calls[ipEncI]), "symx: WriteN(20)", "IP header slice is "+sx.Of(calls[ipEncI].Call.Args[0]).String())
-	r.Check(sx.Of(calls[udpCkI].Call.Args[0]).String() == sx.Of(calls[udpEncI].Call.Args[0]).String() && strings.HasSuffix(sx.Of(calls[udpEncI].Call.Args[0]).String(), ",const(8))"),
-		"C18-K5", key("UDP header occupies the next 8 bytes"), c.P.ipos(calls[udpEncI]), "symx: WriteN(8)", "UDP header slice is "+sx.Of(calls[udpEncI].Call.Args[0]).String())
+	r.Check(hdrOf(calls[udpCkI].Call.Args[0]) == hdrOf(calls[udpEncI].Call.Args[0]) && strings.HasSuffix(hdrOf(calls[udpEncI].Call.Args[0]), ",const(8))"),
+		"C18-K5", key("UDP header occupies the next 8 bytes"), c.P.ipos(calls[udpEncI]), "symx: WriteN(8)", "UDP header slice is "+hdrOf(calls[udpEncI].Call.Args[0])+"; the checksum is stored through "+hdrOf(calls[udpCkI].Call.Args[0]))
 	// order of the two WriteN and the payload
 	var wn []int
 	for i, cl := range calls {
